@@ -158,11 +158,14 @@ def run(tier, seed, replay_path=None):
             o.violate(fl[0]["clause"], {"kind": c["kind"], "fs": c.get("fs"), "pdg": c.get("pdg"), "n": fl[0].get("diag", {}).get("n")},
                       {"clauses": [f["clause"] for f in fl][:5], "diag": fl[0].get("diag"), "text": c.get("text")})
         # binding self test
-        probe = copy.deepcopy(next(c for i, c in enumerate(cases) if i not in rej and c["kind"] == "fs"))
-        probe["obs"]["fs"][0][1] += 1
-        if not judge([probe], wd, Outcome(PROP, tier, seed), "selftest", data):
-            raise Machinery("binding self test: corrupted final state accepted")
-        o.notes["binding_selftest"] = "rejected"
+        probe = copy.deepcopy(next((c for i, c in enumerate(cases) if i not in rej and c["kind"] == "fs"), None))
+        if probe is None and not rej:
+            raise Machinery("binding self test: nothing to corrupt")
+        if probe is not None:
+            probe["obs"]["fs"][0][1] += 1
+            if not judge([probe], wd, Outcome(PROP, tier, seed), "selftest", data):
+                raise Machinery("binding self test: corrupted final state accepted")
+            o.notes["binding_selftest"] = "rejected"
         o.exhaustive = True
         for c in cases[len(chunks):len(chunks) + 2]:
             o.sample(c)
